@@ -429,8 +429,10 @@ def design_free(rng, n, edges, all_atom, virtual=()):
 
 # =========================================================================================== two-level family
 def _with_virtual(rng, n, edges, where):
-    """Add one fragment-less node attached by order-0 edges (tree edge, optionally a second ring edge).
-    where: 'first' | 'middle' | 'last'.  Returns (n, edges, virtual ids, permutation hint for the writer)."""
+    """Add one fragment-less node attached by order-0 edges (one edge, with probability 0.4 a second one that closes
+    a ring).  where ('first' | 'middle' | 'last') is passed on: it tells the writer at which position of the node
+    list the virtual node goes (the writer starts at the first node of that list and visits neighbours in list
+    order, so 'first' makes it node 0; the tag virtual-last / virtual-not-last is computed from the real position)."""
     v = n
     a = rng.randrange(n)
     new_edges = list(edges) + [(a, v, 0)]
@@ -460,8 +462,7 @@ def _emit_two_level(fam, sid, n, edges, design, all_atom, legacy, rng, virtual=(
             ids = rest + [v]
         else:
             ids = rest[:1] + [v] + rest[1:]
-    text, app = render_graph(ids, edges, {i: '[#%s]' % names[i] for i in ids},
-                             start=(ids[0] if vwhere in ('first', None) or not virtual else ids[0]))
+    text, app = render_graph(ids, edges, {i: '[#%s]' % names[i] for i in ids})
     base = relabel_by_appearance([(i, names[i]) for i in range(n)], edges, app)
     key = {u: i for i, u in enumerate(app)}
     if bonds is not None:
@@ -628,7 +629,7 @@ def multiplied_cases(tier):
             yield _mult_case('blocks%d/%s' % (k, fid), '{[#M]|%d[#S]|2}' % k, names,
                              [(i, i + 1, 1) for i in range(k + 1)], '{%s,%s}' % (fs, fm), aa)
             # graft: k units of M carrying a branch of two S
-            if '$]' in fm.split('=', 1)[1][3:] and fid in ('aa3',):
+            if fid == 'aa3':
                 names, edges = [], []
                 for u in range(k):
                     a = 3 * u
@@ -874,6 +875,10 @@ STEREO_MOLS = {
                   ('C', 4, 2, '', None), ('Cl', 5, 1, '\\', None)],
     'chiral2': [('O', None, 0, '', None), ('C', 0, 1, '', 'S'), ('C', 1, 1, '', None), ('C', 1, 1, '', 'R'), ('N', 3, 1, '', None),
                 ('C', 3, 1, '', None), ('F', 5, 1, '', None)],
+    'trisub': [('F', None, 0, '', None), ('C', 0, 1, '/', None), ('Cl', 1, 1, '/', None), ('C', 1, 2, '', None), ('Br', 3, 1, '/', None),
+               ('C', 3, 1, '', None)],
+    'tail-marks': [('N', None, 0, '', None), ('C', 0, 1, '', None), ('C', 1, 1, '', None), ('C', 2, 2, '', None), ('F', 2, 1, '\\', None),
+                   ('Cl', 3, 1, '/', None)],
     'alanine': [('C', None, 0, '', None), ('C', 0, 1, '', 'S'), ('N', 1, 1, '', None), ('C', 1, 1, '', None), ('O', 3, 2, '', None),
                 ('O', 3, 1, '', None)],
 }
